@@ -29,6 +29,10 @@ CLAIMED = {
         text="Lean theorems: absmax scale is non-saturating and full-range up to explicit rounding terms, zero slice gives zero scale, scale shape = keepdim shape, locality of every slice reduction (value at a kept index depends only on that slice) for absmax and max optimizers, "
              "group index maps keep every grouped row/column inside one axis index. Bit-exact correspondence of scales for AbsmaxOptimizer, absmax_scale and MaxOptimizer; metamorphic locality checks (perturb/rescale/permute other slices) on the implementation.",
         design="6/C03", technique="Lean 4 proof + bit-exact differential correspondence + metamorphic equality on the implementation"),
+    "C16": dict(
+        text="Lean theorems: finiteness of the dequantized values of every finite slice/group under the explicit no-overflow guard, null slices give the clamped (positive) scale and dequantize to 0, all-zero affine groups dequantize to 0 whatever the stored codes, error bounds inherited from C01/C02; "
+             "counter-example theorems for the repaired null-scale defect and the recorded overflow findings. Correspondence of the whole quantize_weight path on mixtures of 8 degenerate row classes, calibration on zero/constant batches then inference, zero-weight layers equal to bias.",
+        design="6/C16", technique="Lean 4 proof (corollaries of C01-C03 + guards) + bit-exact differential correspondence"),
 }
 
 NOT_YET = "check not yet built in this round (build in progress; see DESIGN.md build order)"
